@@ -196,7 +196,7 @@ pub fn check(sc: &Scenario, ex: &mut Exec) -> (Verdict, Option<String>) {
     let mut cap_checked = false;
     if max_alone > sc.params.cu as usize {
         ex.stats.fault("unit_alone_in_more_than_cu_groups");
-        let schedules: Vec<(&str, DrawMode, u64)> = vec![
+        let mut schedules: Vec<(&str, DrawMode, u64)> = vec![
             ("seeded_a", DrawMode::Seeded, 1),
             ("seeded_b", DrawMode::Seeded, 2),
             ("coarse2", DrawMode::Coarse(2), 3),
@@ -204,6 +204,13 @@ pub fn check(sc: &Scenario, ex: &mut Exec) -> (Verdict, Option<String>) {
             ("inc", DrawMode::Inc, 5),
             ("dec", DrawMode::Dec, 6),
         ];
+        if sc.depth > 0 {
+            for k in 0..10u64 {
+                schedules.push(("seeded_more", DrawMode::Seeded, 100 + k));
+            }
+            schedules.push(("coarse3", DrawMode::Coarse(3), 7));
+            schedules.push(("coarse5", DrawMode::Coarse(5), 8));
+        }
         for (name, mode, salt) in schedules {
             let mut plan = DrawPlan::neutral(sc.engine_seed ^ salt).release_all().with_row_id(DrawMode::Inc).with_cap(mode);
             plan.seed = sc.engine_seed ^ (salt << 32);
